@@ -6,10 +6,10 @@
 From Verif Require Import Base.Sx Model.FsCrash.
 
 Definition filed_save_protocol : protocol :=
-  [(OpOpen, Some []) (* offset.go:251 *);
-   (OpWrite, Some [OpRemove; OpClose]) (* offset.go:299 *);
-   (OpSync, Some [OpRemove; OpClose]) (* offset.go:306 *);
-   (OpRename, None) (* offset.go:313 *);
+  [(OpOpen, Some []) (* offset.go:244 *);
+   (OpWrite, Some [OpRemove; OpClose]) (* offset.go:292 *);
+   (OpSync, Some [OpRemove; OpClose]) (* offset.go:299 *);
+   (OpRename, None) (* offset.go:306 *);
    (OpClose, None) (* function end (deferred) *)].
 
 Definition generic_save_protocol : protocol :=
